@@ -278,19 +278,17 @@ Section Inner.
   Proof.
     induction n as [|n IH]; intros acc1 acc2 Ha; sim_start; cbn [params_loop].
     - apply simp_none.
-    - step; [|step].
-      apply IH; [fin|solveRs].
+    - step.
+      + step. step; [step|]. apply IH; [fin|solveRs].
+      + sim_go.
   Qed.
 
   Lemma parse_function_parameters_sim :
     sim (map shi) (parse_function_parameters lf) (parse_function_parameters lf).
   Proof.
     sim_start; unfold parse_function_parameters.
-    step; [step|].
-    assert (HS : sim (map shi) (params_loop lf [mk_ident (ps_cur (ps_next s1))])
-                               (params_loop lf [mk_ident (ps_cur (ps_next s2))])).
-    { apply params_loop_sim. fin. }
-    sim_go.
+    step; [step|]. step. step; [step|].
+    apply params_loop_sim; [fin|solveRs].
   Qed.
   Hint Resolve parse_function_parameters_sim : simdb.
 
